@@ -5,8 +5,8 @@
  * (streams,coupled) in {(1,1),(2,0),(2,1),(2,2),(3,1)}; ambisonics family 2 (4 channels) and family 3 (projection encoder, 4 channels);
  * surround family 1 (6 channels).  Every single setting out of {defaults, OPUS_SET_BANDWIDTH x5, OPUS_SET_MAX_BANDWIDTH x4,
  * OPUS_SET_FORCE_CHANNELS 1/2, OPUS_SET_EXPERT_FRAME_DURATION x9} x frame_size argument {2.5,5,10,20,40,60 ms} x per-channel bitrate
- * {default, 12 kb/s, 64 kb/s} x 2 signals (one sweep per channel at different levels; speech-like), --secs seconds each, and
- * (thorough) all cross-dimension pairs of the settings.  Each packet is split with the RFC 6716 Appendix B model (mc/rfc_framing.h)
+ * {default, 12 kb/s, 64 kb/s} x 2 signals (one sweep per channel at different levels; speech-like), --secs-x10/10 seconds each, and
+ * (thorough, 48 and 16 kHz) all cross-dimension pairs of the settings at 5/20/60 ms with bitrate and signal rotating over the pairs.  Each packet is split with the RFC 6716 Appendix B model (mc/rfc_framing.h)
  * into its per-stream packets and each non-empty one is checked:
  *   duration  : every stream's packet holds the requested duration (expert duration, else the frame_size argument);
  *   channels  : forced channel count 1 => every stream codes mono; 2 (only accepted when every stream is coupled) => every stream stereo;
@@ -110,6 +110,8 @@ typedef struct { unsigned char li,fi,ai; signed char a,b; } item_t;
 static item_t *IT; static long nit;
 static void run_item(long k,void *u){ item_t *it=&IT[k]; setting s[2]; int ns=0,argi,ri,sg; (void)u;
    if(it->a>=0) s[ns++]=SET[it->a]; if(it->b>=0) s[ns++]=SET[it->b];
+   if(it->b>=0){ /* pairs of settings: frame arguments 5/20/60 ms, bitrate and signal rotating with the pair */
+      for(argi=1;argi<6;argi+=2) run(it->li,it->fi,it->ai,s,ns,argi,(it->a+it->b)%3,(it->a+argi)%2); return; }
    for(argi=0;argi<6;argi++) for(ri=0;ri<3;ri++) for(sg=0;sg<2;sg++){
       if(!MC.tier && (argi+ri+sg+it->li+it->fi+it->ai)%3) continue;      /* quick: a fixed third of the (frame, rate, signal) cube, rotating with the object */
       run(it->li,it->fi,it->ai,s,ns,argi,ri,sg); }
@@ -120,7 +122,7 @@ int main(int argc,char **argv){
    c_enc=mc_counter("transitions"); c_eval=mc_counter("evaluations"); c_empty=mc_counter("empty_subpackets_exempt"); c_streams=mc_counter("streams_encoded"); c_skipped=mc_counter("configs_not_applicable");
    c_sub=mc_counter("subpackets_split_by_rfc_model"); c_refused2=mc_counter("force_channels_2_refused_on_layout_with_mono_stream");
    S_obs=mc_set_new(22); S_streams=mc_set_new(22);
-   SECS_X10=(int)mc_arg("--secs-x10",MC.tier?10:4); nFs=(int)mc_arg("--nfs",MC.tier?5:2); pairs=(int)mc_arg("--pairs",MC.tier?1:0);
+   SECS_X10=(int)mc_arg("--secs-x10",MC.tier?6:4); nFs=(int)mc_arg("--nfs",MC.tier?5:2); pairs=(int)mc_arg("--pairs",MC.tier?1:0);
    for(i=OPUS_BANDWIDTH_NARROWBAND;i<=OPUS_BANDWIDTH_FULLBAND;i++){ SET[nset].dim=D_BANDWIDTH; SET[nset++].val=i; }
    for(i=OPUS_BANDWIDTH_NARROWBAND;i<=OPUS_BANDWIDTH_SUPERWIDEBAND;i++){ SET[nset].dim=D_MAXBW; SET[nset++].val=i; }
    SET[nset].dim=D_FORCECH; SET[nset++].val=1; SET[nset].dim=D_FORCECH; SET[nset++].val=2;
@@ -129,7 +131,7 @@ int main(int argc,char **argv){
    for(li=0;li<NLAY;li++) for(fi=0;fi<nFs;fi++) for(ai=0;ai<3;ai++){
       IT[nit].li=li; IT[nit].fi=fi; IT[nit].ai=ai; IT[nit].a=-1; IT[nit].b=-1; nit++;
       for(i=0;i<nset;i++){ IT[nit].li=li; IT[nit].fi=fi; IT[nit].ai=ai; IT[nit].a=i; IT[nit].b=-1; nit++; }
-      if(pairs) for(i=0;i<nset;i++) for(j=i+1;j<nset;j++) if(SET[i].dim!=SET[j].dim){ IT[nit].li=li; IT[nit].fi=fi; IT[nit].ai=ai; IT[nit].a=i; IT[nit].b=j; nit++; } }
+      if(pairs&&fi<2) for(i=0;i<nset;i++) for(j=i+1;j<nset;j++) if(SET[i].dim!=SET[j].dim){ IT[nit].li=li; IT[nit].fi=fi; IT[nit].ai=ai; IT[nit].a=i; IT[nit].b=j; nit++; } }
    mc_info("mshonour: %d layouts x %d rates x 3 applications x (1 + %d single settings%s) x frame argument x bitrate x signal",NLAY,nFs,nset,pairs?" + all cross-dimension pairs":"");
    mc_par(nit,run_item,NULL);
    st=mc_counter("states"); dn=mc_counter("distinct_nontrivial"); *st=mc_set_count(S_streams); *dn=mc_set_count(S_obs);
